@@ -413,6 +413,7 @@ func RunScenario(t *testing.T, sc *Scenario, tape []int32) *RunResult {
 	cfg := simsync.Config{
 		Seed: sc.Seed, Tape: tape, Strategy: sc.Strategy, IterMode: sc.IterMode, IterRot: sc.IterRot,
 		MaxSteps: 250000, Horizon: 3 * time.Hour,
+		ForceStallTask: sc.ForceStallTask, ForceStallStep: sc.ForceStallStep, ForceStallDur: time.Duration(sc.ForceStallMs) * time.Millisecond,
 	}
 	traceSteps := os.Getenv("VERIF_STEPS") != ""
 	if sc.SweepStep > 0 || traceSteps {
@@ -521,10 +522,17 @@ func RunScenario(t *testing.T, sc *Scenario, tape []int32) *RunResult {
 		for ci := range sc.Clients {
 			c := &sc.Clients[ci]
 			clients.Add(1)
-			simsync.GoNamed("client:"+c.Name, func() {
+			body := func() {
 				defer clients.Done()
 				rc.runClient(c)
-			})
+			}
+			if sc.StallClients {
+				// the requests run on the caller's goroutine: with this flag fault F13 may set
+				// it aside in the middle of a request, as it may a handler goroutine of the server
+				simsync.GoNamedStallable("client:"+c.Name, body)
+			} else {
+				simsync.GoNamed("client:"+c.Name, body)
+			}
 		}
 		for fi := range sc.WS {
 			f := &sc.WS[fi]
@@ -716,6 +724,11 @@ func (rc *runCtx) doOp(op *Op) (any, error) {
 	case "info":
 		return p.GetProcessInfo(op.Arg)
 	case "log":
+		if op.Rest && rc.eng != nil {
+			// through the real handler: it encodes the window it was handed after the log's
+			// lock has been released
+			return rc.restLogs(op.Arg, op.N, op.M)
+		}
 		return p.GetProcessLog(op.Arg, op.N, op.M)
 	case "projstate":
 		return p.GetProjectState(false)
